@@ -17,7 +17,7 @@
 
   History (the model mirrors the code, so these are no longer theorems — they were, against the
   code before the fixes, and the oracle clauses/classes that caught them are still active):
-  * lyon 4b89a854 "fill_rectangle and fill_circle abort the geometry when the builder refuses a
+  * lyon 34f2f5da "fill_rectangle and fill_circle abort the geometry when the builder refuses a
     vertex".  Before it the fast paths left through `?` without `abort_geometry`.  Former witnesses
     on the old `shapeRun` (error branch `⟨x.st, begin :: x.calls, Err e⟩`):
     `rect_circle_trace_witness` — rectangle, builder refusing the 3rd vertex: trace
@@ -27,7 +27,7 @@
     `[100, 101, 0, 1, 2, 3]` behind; `rect_circle_trace_partial` — the error is returned and the trace
     is the protocol trace with its `abort` missing.  Now: `rect_circle_trace`,
     `rect_circle_all_or_nothing`.
-  * lyon 4ae25521 "the stroker stops emitting geometry once a builder error is latched".  Before it
+  * lyon 85d83d35 "the stroker stops emitting geometry once a builder error is latched".  Before it
     the model had an arbitrary request sequence `post` between the latched error and the abort,
     `stroke_ids_fresh_partial` covered only the requests before the first refusal, and
     `stroke_ids_fresh_witness` showed `[begin, V!, V0, V1, T1 0 4294967295, abort]` (the real stroker
